@@ -46,6 +46,9 @@ class World:
         self.ns = [dict() for _ in spec['algebras']]          # per algebra: body id -> registered object
         self.regspec = {}                                      # (alg, body id) -> registration spec
         self.shared = {}                                       # index -> operand object
+        import threading
+        self._tls = threading.local()
+        self.prev_results = {}                                 # (caller, op index) -> returned MultiVector
         for r in spec.get('registered', []):
             self.regspec[(r['alg'], r['body'])] = r
 
@@ -183,6 +186,13 @@ def build_operand(world, ai, r):
     if k == 'opres':
         out = perform_raw(world, r['op'])
         return out
+    if k == 'prev':
+        # the multivector an earlier operation of this caller returned (the very object, when the caller
+        # kept it); on a fresh algebra the earlier operation is simply evaluated again
+        got = getattr(world, 'prev_results', {}).get((getattr(world._tls, 'caller', None), r['i']))
+        if got is not None:
+            return got
+        return perform_raw(world, r['op'])
     if k == 'other':          # an operand that lives in another algebra (mixed-algebra calls must be rejected)
         return build_operand(world, r['alg'], r['of'])
     raise ValueError(f'unknown recipe {r!r}')
